@@ -1,85 +1,21 @@
-import PynencModel.Model.Proto
-import PynencModel.Model.Orch
-import PynencModel.Gen.StatusTable
-import PynencModel.Model.AtomicService
+import PynencModel.Driver.Core
+import PynencModel.Driver.C12
 /-
   `pynmodel`: one operation per input line, one canonical output line per operation.
   The harness runs the real pynenc code on the same operations and diffs the outputs.
+  Each property's operations live in a fragment `PynencModel/Driver/*.lean` with its own state.
 -/
-open Pynenc Pynenc.Proto
+open Pynenc
 
 structure World where
-  orch : Orch := {}
-
-def showRec (r : ORec) : String := s!"{r.status.name} {tok r.owner} {r.ts}"
-
-def showSetErr : SetErr → String
-  | .status .transition => "err transition"
-  | .status .ownership => "err ownership"
-  | .unknownId => "err keyerror"
-
-def parseRat (s : String) : Option Rat :=
-  match s.splitOn "/" with
-  | [a, b] => match a.toInt?, b.toNat? with
-    | some n, some d => if d = 0 then none else some ((n : Rat) / (d : Rat))
-    | _, _ => none
-  | [a] => a.toInt?.map fun n => (n : Rat)
-  | _ => none
-
-def showRat (r : Rat) : String := s!"{r.num}/{r.den}"
+  core : Driver.Core.St := {}
+  c12 : Driver.C12.St := {}
 
 def stepLine (w : World) (line : String) : World × String :=
-  match (line.splitOn " ").filter (· ≠ "") with
-  -- pure status step:  st.step <cur|-> <owner tok> <req> <rid tok>
-  | ["st.step", cur, owner, req, rid] =>
-    match Status.ofName? req, untok owner, untok rid with
-    | some rq, some ow, some rd =>
-      let c : Option (Option SRec) :=
-        if cur == "-" then some none else (Status.ofName? cur).map fun s => some { status := s, owner := ow }
-      match c with
-      | some c =>
-        match step Gen.table c rq rd with
-        | .ok r => (w, s!"ok {r.status.name} {tok r.owner}")
-        | .error .transition => (w, "err transition")
-        | .error .ownership => (w, "err ownership")
-      | none => (w, "bad-op")
-    | _, _, _ => (w, "bad-op")
-  -- C12: as.slot <imin> <mmin> <n> <p>   /  as.can <imin> <mmin> <n> <pos|-> <t>   (binary64 arithmetic via rne)
-  | ["as.slot", imin, mmin, n, p] =>
-    match parseRat imin, parseRat mmin, n.toNat?, p.toNat? with
-    | some i, some m, some n, some p =>
-      (w, s!"{showRat (AS.slotStart AS.rne i n p)} {showRat (AS.slotEnd AS.rne i m n p)}")
-    | _, _, _, _ => (w, "bad-op")
-  | ["as.can", imin, mmin, n, pos, t] =>
-    match parseRat imin, parseRat mmin, n.toNat?, parseRat t with
-    | some i, some m, some n, some t =>
-      let ps : Option (Option Nat) := if pos == "-" then some none else pos.toNat?.map some
-      match ps with
-      | some ps => (w, toString (AS.canRun AS.rne i m n ps t))
-      | none => (w, "bad-op")
-    | _, _, _, _ => (w, "bad-op")
-  | ["orch.reset"] => ({ w with orch := {} }, "ok")
-  | ["orch.register", id, rid, ts] =>
-    match untok id, untok rid, ts.toInt? with
-    | some (some i), some rd, some t => ({ w with orch := w.orch.register i rd t }, "ok")
-    | _, _, _ => (w, "bad-op")
-  -- test-only injection of an arbitrary record (the harness injects the same into the backends)
-  | ["orch.inject", id, st, owner, ts] =>
-    match untok id, Status.ofName? st, untok owner, ts.toInt? with
-    | some (some i), some s, some ow, some t =>
-      ({ w with orch := { w.orch with recs := w.orch.recs.set i { status := s, owner := ow, ts := t } } }, "ok")
-    | _, _, _, _ => (w, "bad-op")
-  | ["orch.set", id, req, rid, ts] =>
-    match untok id, Status.ofName? req, untok rid, ts.toInt? with
-    | some (some i), some rq, some rd, some t =>
-      let (o, res) := w.orch.setStatus Gen.table i rq rd t
-      ({ w with orch := o }, match res with | .ok r => "ok " ++ showRec r | .error e => showSetErr e)
-    | _, _, _, _ => (w, "bad-op")
-  | ["orch.get", id] =>
-    match untok id with
-    | some (some i) => (w, match w.orch.get i with | some r => showRec r | none => "err keyerror")
-    | _ => (w, "bad-op")
-  | _ => (w, "bad-op")
+  let toks := (line.splitOn " ").filter (· ≠ "")
+  if let some (s, o) := Driver.Core.handle w.core toks then ({ w with core := s }, o)
+  else if let some (s, o) := Driver.C12.handle w.c12 toks then ({ w with c12 := s }, o)
+  else (w, "bad-op")
 
 partial def loop (h : IO.FS.Stream) (out : IO.FS.Stream) (w : World) : IO Unit := do
   let line ← h.getLine
